@@ -22,7 +22,10 @@
 //     deliver_to targets and reroute blocks; a reroute block is a complete
 //     pipeline evaluated on the final sender and recipient values;
 //   - replace_rcpt / replace_sender: whole address looked up first, then the
-//     local part (domain kept); not recursive.
+//     local part (domain kept); not recursive;
+//   - the modifiers of one scope (all its `modify` directives and referenced groups, in
+//     the order written) run one after the other, each on every address the previous
+//     one produced; results are not deduplicated.
 package c04
 
 import (
@@ -300,6 +303,9 @@ type leaf struct {
 type router struct {
 	al    *alphabet
 	stats map[string]int // statistics for the evidence (nil: do not count)
+	// chains: when non-nil, every place where a recipient modifier after the first one of a scope
+	// receives several addresses and expands one of them is appended (chain_test.go)
+	chains *[]chainEvent
 }
 
 func (r *router) count(k string) {
@@ -414,7 +420,7 @@ func (r *router) route(p *pipe, sender addr, rcpt addr) []leaf {
 	}
 	r.count(fmt.Sprintf("model_source_via_%s_depth%d", viaS, p.depth))
 	finalSender := sb.mods.rewriteSender(sender)
-	rcpts := sb.mods.rewriteRcpt(p.mods.rewriteRcpt([]addr{rcpt}))
+	rcpts := r.rewriteRcpt(sb.mods, "source", p.depth, r.rewriteRcpt(p.mods, "global", p.depth, []addr{rcpt}))
 	if len(rcpts) > 1 {
 		r.count("model_rcpt_expanded_before_selection")
 	}
@@ -436,7 +442,7 @@ func (r *router) route(p *pipe, sender addr, rcpt addr) []leaf {
 			out = append(out, leaf{refuse: rb.reject, via: viaS + ">" + viaR, depth: p.depth})
 			continue
 		}
-		finals := rb.mods.rewriteRcpt([]addr{rc})
+		finals := r.rewriteRcpt(rb.mods, "destination", p.depth, []addr{rc})
 		if len(finals) > 1 {
 			r.count("model_rcpt_expanded_in_destination")
 		}
@@ -471,6 +477,9 @@ type gen struct {
 	maxDepth  int
 	allAddrs  []addr
 	tablesMax int
+	// rejectIn10: how many destination blocks in 10 reject (0 = the default 3); the rewrite-chain
+	// group lowers it so that most expansions are delivered completely and therefore judged exactly
+	rejectIn10 int
 }
 
 func (g *gen) anyAddr() addr {
@@ -635,7 +644,11 @@ func (g *gen) newRcptBlock(depth int, scope string) *rcptBlock {
 		b.hasChk = false
 		return b
 	}
-	if g.p.Chance(3, 10) {
+	rejectIn10 := 3
+	if g.rejectIn10 > 0 {
+		rejectIn10 = g.rejectIn10
+	}
+	if g.p.Chance(rejectIn10, 10) {
 		b.reject = g.newReject()
 		g.feats["reject"] = true
 		return b
